@@ -445,6 +445,8 @@ func standingAssumptions() []string {
 		"external calls without a stub contract return arbitrary values and may overwrite the contents of slices passed to them, nothing else",
 		"sync.Pool.Get returns an object no other owner holds, of the type the pool's New function returns, with arbitrary field contents",
 		"termination is proved only where a decreases clause is listed",
+		"recover() yields nil: only panic-free executions are modelled (panics are proof obligations in the functions under contract, and assumed away in the code they call)",
+		"variables of other packages (io.EOF, io.ErrUnexpectedEOF ...) hold values that are not this package's own error values; exported error variables are not nil",
 		"allocation failure, stack exhaustion and cap growth policy of append are not modelled (any capacity >= length)",
 	}
 }
